@@ -21,6 +21,12 @@
       "stale follower" variant (regression for A21); the observations are judged by the same TLA+ monitor
   (8) thorough tier: more position families / two candidates, and the proposed repair of A7 (PersistFixed) checked
       exhaustively with a restart
+  (9) the refusal "my log is newer" must COUNT (switch RejectVetoes of the model, monitor clause (e)): exhaustive runs
+      over configurations whose election majority need not contain the newest data member (3 members with an arbiter /
+      a newest member of weight 0; 3 data members + 2 arbiters); TLC must REFUTE NewestWins on the deviation
+      RejectVetoes = FALSE and the refuting histories are replayed on the real objects (which must not follow them);
+      generators sim3h / sim4h / sim5h and the "veto" flavour of the wide-range histories lose the fresher member's
+      vote-round messages and deliver its proposal-round messages
 """
 import json, os, random, shutil, time, concurrent.futures as cf
 import vbuild, vtlc, engine, checklib, electp
@@ -56,7 +62,7 @@ def f32(k):
 def real_pos(p):
     return {"idx": f32(p["idx"]), "off": f32(p["off"]), "ct": p["ct"] * 1000}
 
-def hist_to_scenario(hist, name, rounds):
+def hist_to_scenario(hist, name, rounds, epilogue=False):
     cfg = hist[0]["exp"]
     n = len(cfg["w"])
     members = [{"w": cfg["w"][i], "arb": cfg["arb"][i], "aof": real_pos(cfg["aof"][i]), "c0": cfg["c0"][i]} for i in range(n)]
@@ -65,7 +71,10 @@ def hist_to_scenario(hist, name, rounds):
         if h["c"]:
             cands.add(h["c"])
         steps.append({"op": h["op"], "c": h["c"], "m": h["m"], "exp": h["exp"]})
-    return {"name": name, "members": members, "cands": sorted(cands), "rounds": rounds, "steps": steps}
+    sc = {"name": name, "members": members, "cands": sorted(cands), "rounds": rounds, "steps": steps}
+    if epilogue:     # a candidacy the real code left half-way where the behaviour ends is run to its end (engine E)
+        sc["epilogue"] = True
+    return sc
 
 def parse_hists(out, tag):
     """hist values printed by TLC under `tag` ("BEHAVIOUR" / "CEX <name>"); maximal ones only."""
@@ -93,16 +102,20 @@ def parse_hists(out, tag):
 CODE = (True, False, True, True)
 ALLFIXED = (True, True, True, True)
 
-def cfg_text(n, cands, cfgs, rounds, restarts, lose, invs, props=(), view=True, fixed=None, sim=False, hunt=False):
+def cfg_text(n, cands, cfgs, rounds, restarts, lose, invs, props=(), view=True, fixed=None, sim=False, hunt=False, veto=True, gates=None):
+    """veto = value of RejectVetoes (TRUE is the code); gates = (LoseOK override, RestartOK override or None)."""
     fixed = CODE if fixed is None else fixed
     t = ["SPECIFICATION Spec", "CONSTANTS", f"  N = {n}", "  Cands = {%s}" % ", ".join(map(str, cands)), f"  Cfgs <- {cfgs}",
          f"  MaxRounds = {rounds}", f"  MaxRestarts = {restarts}", f"  Lose = {'TRUE' if lose else 'FALSE'}",
          f"  CmpFixed = {'TRUE' if fixed[0] else 'FALSE'}", f"  PersistFixed = {'TRUE' if fixed[1] else 'FALSE'}",
-         f"  PidFixed = {'TRUE' if fixed[2] else 'FALSE'}", f"  HostFixed = {'TRUE' if len(fixed) > 3 and fixed[3] else 'FALSE'}"]
+         f"  PidFixed = {'TRUE' if fixed[2] else 'FALSE'}", f"  HostFixed = {'TRUE' if len(fixed) > 3 and fixed[3] else 'FALSE'}",
+         f"  RejectVetoes = {'TRUE' if veto else 'FALSE'}"]
     if sim:
         t += ["  LoseOK <- SimLoseOK", "  RestartOK <- SimRestartOK"]
     if hunt:
         t += ["  LoseOK <- HuntLoseOK"]
+    if gates:
+        t += [f"  LoseOK <- {gates[0]}"] + ([f"  RestartOK <- {gates[1]}"] if len(gates) > 1 and gates[1] else [])
     if view:
         t.append("VIEW view_")
     if invs:
@@ -167,6 +180,55 @@ def gen_wide(seed, i):
             "rand": {"seed": seed * 7919 + i, "maxsteps": 600, "plose": rng.choice([0.0, 0.1, 0.25, 0.4]),
                      "prestart": rng.choice([0.0, 0.0, 0.02, 0.05]), "maxrestarts": rng.choice([0, 1, 2, 3])}}
 
+def gen_veto(seed, i):
+    """Wide-range history of the "veto" flavour: a cluster whose election majority need not contain the newest data
+    member (arbiters, a newest member of weight 0), real 64-bit positions that differ in file index against offset,
+    the fresher member's vote-round messages mostly lost (rand.phide) and its proposal-round messages delivered."""
+    rng = random.Random(seed * 1000003 + i * 31 + 17)
+    base = rng.choice([{"idx": 5, "off": 4000, "ct": 8000}, {"idx": 0xffffffff, "off": 1 << 20, "ct": 77}, {"idx": 2, "off": 900, "ct": 5},
+                       {"idx": 0x7ffffffe, "off": 123456, "ct": 1 << 40}, {"idx": 1, "off": 40, "ct": 1000}])
+    def ahead(p):
+        k = rng.randrange(4)
+        if k == 0:    # next file, small offset: the index says newer, the offset says older (A21)
+            return {"idx": (p["idx"] + 1) % (1 << 32), "off": rng.randrange(0, 30), "ct": p["ct"] + 9}
+        if k == 1:    # same file, further
+            return {"idx": p["idx"], "off": p["off"] + rng.randrange(1, 500), "ct": p["ct"] + 3}
+        if k == 2:    # several files ahead (across the wrap when the base sits there)
+            return {"idx": (p["idx"] + rng.randrange(2, 6)) % (1 << 32), "off": rng.randrange(0, 1 << 16), "ct": p["ct"] + 50}
+        return {"idx": p["idx"], "off": p["off"], "ct": p["ct"] + rng.randrange(1, 1000)}    # same id, later command time
+    kind = rng.choice(["arb5", "arb5", "arb3", "w0", "w0cand", "arb4"])
+    if kind == "arb5":
+        roles = ["d", "d", "d", "a", "a"]
+    elif kind == "arb3":
+        roles = ["d", "d", "a"]
+    elif kind == "arb4":
+        roles = ["d", "d", "d0", "a"]
+    else:
+        roles = ["d"] * rng.choice([3, 3, 4, 5])
+    rng.shuffle(roles)
+    data = [j for j, r in enumerate(roles) if r != "a"]
+    fresh = rng.choice(data)                       # the newest data member
+    if kind in ("w0", "w0cand"):
+        roles[fresh] = "d0"                        # ... has weight 0: never proposed, always refuses
+    elif kind == "arb4":
+        fresh = roles.index("d0")
+    newest = ahead(base)
+    members = []
+    for j, r in enumerate(roles):
+        if r == "a":
+            members.append({"w": rng.choice([0, 1, 1]), "arb": 1, "aof": {"idx": 0, "off": 0, "ct": 0}, "c0": rng.choice([0, 0, 1])})
+        else:
+            pos = newest if j == fresh else (dict(base) if rng.random() < 0.7 else rng.choice([dict(base), newest]))
+            members.append({"w": 0 if r == "d0" else rng.choice([1, 1, 2, 3]), "arb": 0, "aof": pos, "c0": rng.choice([0, 0, 0, 2])})
+    stale = [j + 1 for j in data if j != fresh]
+    if kind == "w0cand":
+        cands = sorted({fresh + 1, rng.choice(stale)})
+    else:
+        cands = sorted(set(rng.sample(stale, min(len(stale), rng.choice([1, 1, 2]))) + ([rng.choice([j + 1 for j, r in enumerate(roles) if r == "a"])] if "a" in roles and rng.random() < 0.3 else [])))
+    return {"name": f"veto-{seed}-{i}", "members": members, "cands": cands, "rounds": rng.choice([1, 2, 2]), "steps": [],
+            "rand": {"seed": seed * 104729 + i, "maxsteps": 600, "plose": rng.choice([0.0, 0.0, 0.05, 0.15]),
+                     "phide": rng.choice([0.6, 0.8, 1.0]), "prestart": rng.choice([0.0, 0.0, 0.02]), "maxrestarts": rng.choice([0, 0, 1])}}
+
 def directed_scenarios():
     with open(os.path.join(VERIF, "scenarios", "election_directed.json")) as fh:
         return json.load(fh)
@@ -188,7 +250,8 @@ def monitor(traces, wd, timeout=900):
         i, tr = arg
         return tr, vtlc.run_tlc([mondir], "MonElection", MON_CFG % tr, os.path.join(wd, f"tlc_mon_{i}"), workers=1, timeout=timeout)
     viols, divs = [], []
-    stats = {"events": 0, "monitor_states": 0, "agnostic_choices": 0}
+    stats = {"events": 0, "monitor_states": 0, "agnostic_choices": 0, "refusal_rounds": 0, "refusal_with_accept_majority": 0,
+             "wins_judged": 0, "wins_all_data_heard": 0}
     with cf.ThreadPoolExecutor(max_workers=engine.NCPU) as ex:
         for tr, r in ex.map(one, list(enumerate(traces))):
             out = r["out"]
@@ -217,7 +280,10 @@ def monitor(traces, wd, timeout=900):
                         pass
                 elif ln.startswith('"MONSTAT '):
                     try:
-                        stats["agnostic_choices"] += json.loads(json.loads(ln)[8:])["agnostic"]
+                        ms = json.loads(json.loads(ln)[8:])
+                        stats["agnostic_choices"] += ms["agnostic"]
+                        for key in ("refusal_rounds", "refusal_with_accept_majority", "wins_judged", "wins_all_data_heard"):
+                            stats[key] += ms.get(key, 0)
                     except Exception:
                         pass
     return viols, divs, stats
@@ -245,12 +311,18 @@ def corruptions(evs):
     for i, e in enumerate(evs):
         if e["e"] == "dreq" and e.get("phase") == "prop" and e.get("res") == "" and e["acc"][e["m"] - 1][0] >= 1:
             c = json.loads(json.dumps(evs))
-            for later in c[i + 1:]:
+            hit = False
+            for k, later in enumerate(c[i + 1:]):
                 if later["e"] != "end" and "acc" in later:
-                    later["acc"][e["m"] - 1][0] -= 1
-                    yield ("a", f"event {i+2}: recorded proposalId of member {e['m']} lowered by one", "numbers-regress", c)
+                    # only where the real code left the number unchanged in that event: if it raised it there,
+                    # "one less" is not below the previous record and the corruption would not be a regression
+                    if later["acc"][e["m"] - 1][0] == e["acc"][e["m"] - 1][0]:
+                        later["acc"][e["m"] - 1][0] -= 1
+                        hit = True
+                        yield ("a", f"event {i+k+2}: recorded proposalId of member {e['m']} lowered by one", "numbers-regress", c)
                     break
-            break
+            if hit:
+                break
     # (b) a failed commit phase of a candidacy that overlaps a winner is recorded as successful
     for i, e in enumerate(evs):
         if e["e"] == "pend" and e["phase"] == "commit" and not e["ok"]:
@@ -273,6 +345,41 @@ def corruptions(evs):
             c[i]["res"] = ""
             yield ("d", f"event {i+1}: ERR_REJECT reply of member {e['m']} rewritten to accepted", "newer-log-member-accepted-proposal", c)
             break
+    # (e) in a SUCCESSFUL candidacy an accepted proposal reply that reached the candidate is rewritten to the refusal ERR_REJECT
+    # (f) ... the recorded own log position of a data member that answered its proposal round is rewritten to one file ahead
+    for j, i in winning_props(evs):
+        cnd = evs[j]["c"]
+        dre = {e["m"]: k for k, e in enumerate(evs[j:i]) if e["e"] == "dreq" and e.get("phase") == "prop" and e["c"] == cnd and e.get("res") == ""}
+        got = [e["m"] for e in evs[j:i] if e["e"] == "drsp" and e.get("phase") == "prop" and e["c"] == cnd and e["m"] in dre]
+        if not got:
+            continue
+        k = j + dre[got[0]]
+        c = json.loads(json.dumps(evs))
+        c[k]["res"] = "ERR_REJECT"
+        yield ("e", f"event {k+1}: accepted proposal reply of member {got[0]} (delivered; the candidacy of {cnd} succeeds) rewritten to ERR_REJECT", "candidacy-won-despite-newer-log-refusal", c)
+        withown = [m for m in got if "own" in evs[j + dre[m]]]
+        if withown:
+            k = j + dre[withown[0]]
+            c = json.loads(json.dumps(evs))
+            p = dict(c[k]["req"]["aof"])
+            p["il"] = (p["il"] + 1) % 65536
+            if p["il"] == 0:
+                continue
+            c[k]["own"] = p
+            yield ("f", f"event {k+1}: own log position of member {withown[0]}, which answered the proposal round of the successful candidacy of {cnd}, rewritten to one file ahead of the proposed position",
+                   "winner-log-older-than-answering-member", c)
+        break
+
+def winning_props(evs):
+    """(index of the prop start, index of the commit pend) of the successful candidacies of one history."""
+    out = []
+    for i, e in enumerate(evs):
+        if e["e"] == "pend" and e["phase"] == "commit" and e["ok"]:
+            for j in range(i - 1, -1, -1):
+                if evs[j]["e"] == "start" and evs[j]["phase"] == "prop" and evs[j]["c"] == e["c"]:
+                    out.append((j, i))
+                    break
+    return out
 
 def selftest(traces, accepted_names, wd):
     """Corrupt accepted histories; the TLA+ monitor must reject each corrupted one."""
@@ -293,8 +400,8 @@ def selftest(traces, accepted_names, wd):
                 viols, _, _ = monitor([p], os.path.join(wd, f"selftest_mon_{len(done)}"))
                 codes = sorted({v["code"] for v in viols})
                 ok = len(viols) > 0 and (code is None or code in codes)
-                done[key] = {"corruption": desc, "rejected": ok, "codes": codes, "history": evs[0]["name"]}
-            if len(done) >= 4:
+                done[key] = {"kind": key, "corruption": desc, "rejected": ok, "codes": codes, "history": evs[0]["name"]}
+            if len(done) >= 6:
                 return list(done.values())
     return list(done.values())
 
@@ -312,13 +419,18 @@ def run(prop, tier, seed):
         # few JVMs at a time, each with few GC / JIT threads: the box is shared
         os.environ.setdefault("JAVA_TOOL_OPTIONS", "-XX:ParallelGCThreads=2 -XX:CICompilerCount=2")
         ex = cf.ThreadPoolExecutor(max_workers=max(2, min(5, ncpu // 3)))
-        INV = ["TypeOK", "OneWinner", "ChoiceOK", "NewerRefuses", "NoRegress"]
+        INV = ["TypeOK", "OneWinner", "ChoiceOK", "NewerRefuses", "RefusalHonoured", "NewestWins", "NoRegress"]
         MONO = ["Monotone"]
         # (1) exhaustive design checks of the model of the code as it is (restarts excluded: finding A7)
         jobs["mc_core"] = ex.submit(tlc, "mc_core", cfg_text(3, [1, 2], "Core3", 1, 0, True, INV, props=MONO), wd, w8 if quick else ncpu, 1500 if quick else 3000)
         jobs["mc_cfg"] = ex.submit(tlc, "mc_cfg", cfg_text(3, [2], "Mixed3Clash", 1, 0, True, INV, props=MONO), wd, w4 if quick else w8, 1500 if quick else 3000)
         jobs["mc_rounds"] = ex.submit(tlc, "mc_rounds", cfg_text(3, [1, 3], "Core3", 2, 0, False, INV, props=MONO), wd, w4, 1500 if quick else 3000)
+        # (9) configurations whose election majority need not contain the newest data member
+        jobs["mc_veto3"] = ex.submit(tlc, "mc_veto3", cfg_text(3, [2], "Veto3", 1, 0, True, INV, props=MONO), wd, 1, 1500)
+        jobs["mc_veto5"] = ex.submit(tlc, "mc_veto5", cfg_text(5, [3], "Arb5Slice", 1, 0, True, INV, props=MONO, gates=None if not quick else ("DataLoseOK",)), wd, w4, 1500 if quick else 3000)
         if not quick:
+            jobs["mc_veto3_two"] = ex.submit(tlc, "mc_veto3_two", cfg_text(3, [2, 3], "Veto3", 1, 0, True, INV, props=MONO), wd, w8, 3000)
+            jobs["mc_veto3_arb"] = ex.submit(tlc, "mc_veto3_arb", cfg_text(3, [2], "Arb3", 1, 0, True, INV, props=MONO), wd, w4, 3000)
             jobs["mc_cfg_agree"] = ex.submit(tlc, "mc_cfg_agree", cfg_text(3, [2], "Mixed3Agree", 1, 0, True, INV, props=MONO), wd, w4, 3000)
             jobs["mc_cfg_wrap"] = ex.submit(tlc, "mc_cfg_wrap", cfg_text(3, [2], "Mixed3Wrap", 1, 0, True, INV, props=MONO), wd, w4, 3000)
             jobs["mc_cfg2_clash"] = ex.submit(tlc, "mc_cfg2_clash", cfg_text(3, [1, 3], "Slice3Clash", 1, 0, False, INV), wd, w8, 3000)
@@ -335,6 +447,14 @@ def run(prop, tier, seed):
         }
         for k, c in hunts.items():
             jobs[k] = ex.submit(tlc, k, c, wd, w4 if k == "cex_restart_winners" else 1, 1500)
+        # (9) the DEVIATION RejectVetoes = FALSE must be refuted by TLC (export invariant: every refuting state prints
+        #     its history, TLC goes on); the histories are replayed on the real objects like the A7 counterexamples
+        devs = {
+            "dev_reject3": cfg_text(3, [2], "Veto3", 1, 0, True, ["ExpNewest"], veto=False),
+            "dev_reject5": cfg_text(5, [3], "Arb5Slice", 1, 0, True, ["ExpNewest"], veto=False, gates=("DataLoseOK",)),
+        }
+        for k, c in devs.items():
+            jobs[k] = ex.submit(tlc, k, c, wd, 1 if k == "dev_reject3" else w4, 1500)
         # (3) behaviours
         nb = 60 if quick else 2000
         sims = {
@@ -342,9 +462,15 @@ def run(prop, tier, seed):
             "sim3w": (cfg_text(3, [1, 3], "Mixed3Wrap", 2, 1, True, ["SimExport"], view=False, sim=True), 2),
             "sim4": (cfg_text(4, [1, 2, 4], "Mixed4", 2, 2, True, ["SimExport"], view=False, sim=True), 2),
             "sim5": (cfg_text(5, [1, 2, 5], "Mixed5", 2, 2, True, ["SimExport"], view=False, sim=True), 2),
+            # (9) arbiters / weight-0 members; the fresher member's vote-round messages mostly lost, its proposal-round messages never
+            "sim3h": (cfg_text(3, [1, 2, 3], "Arb3", 2, 1, True, ["SimExport"], view=False, gates=("HideLoseOK", "HideRestartOK")), 2),
+            "sim4h": (cfg_text(4, [1, 2, 3], "Arb4", 2, 1, True, ["SimExport"], view=False, gates=("HideLoseOK", "HideRestartOK")), 2),
+            "sim5h": (cfg_text(5, [2, 3, 5], "Arb5", 2, 1, True, ["SimExport"], view=False, gates=("HideLoseOK", "HideRestartOK")), 2),
         }
+        nbh = 60 if quick else 600      # the "h" generators
+        nsim = {k: (nbh if k.endswith("h") else nb) for k in sims}
         for k, (c, rounds) in sims.items():
-            jobs[k] = ex.submit(tlc, k, c, wd, 1, 1500, simulate=f"num={nb}", depth=400, seed=seed)
+            jobs[k] = ex.submit(tlc, k, c, wd, 1, 1500, simulate=f"num={nsim[k]}", depth=400, seed=seed)
         binp = vbuild.build_inpkg("server", wd)
         # (7) engine P runs in the background while TLC works
         slock_bin = electp.build_slock(wd)
@@ -371,6 +497,30 @@ def run(prop, tier, seed):
             cex_info[k] = {"found": len(hs), "steps": len(hs[0]) - 1 if hs else 0}
             for j, h in enumerate(hs[:3]):
                 scs.append(hist_to_scenario(h, f"{k}-{j}", 2))
+        dev_info = {}
+        for k in devs:
+            r = jobs[k].result()
+            if r["rc"] == -9:
+                raise InfraError(f"TLC timed out on {k}")
+            st = vtlc.parse_stats(r["out"])
+            hs, nref = parse_hists(r["out"], "CEX")
+            if st is None or "No error has been found" not in r["out"]:
+                raise InfraError(f"{k}: TLC did not complete (design model, not a verdict on the code):\n" + r["out"][-3000:])
+            if not hs:
+                raise InfraError(f"{k}: TLC did not refute NewestWins / RefusalHonoured on the deviation RejectVetoes = FALSE - the model can no longer express the defect class")
+            rng = random.Random(seed * 31 + len(k))
+            rng.shuffle(hs)
+            # one history per configuration first (generalise over the configurations), then more up to the cap
+            seen_cfg, pick, rest = set(), [], []
+            for h in hs:
+                key = json.dumps(h[0]["exp"], sort_keys=True)
+                (rest if key in seen_cfg else pick).append(h)
+                seen_cfg.add(key)
+            pick = (pick + rest)[:8 if quick else 40]
+            dev_info[k] = {"refuting_states": nref, "distinct_histories": len(hs), "configurations_refuted": len(seen_cfg), "steps": len(pick[0]) - 1,
+                           "distinct_states": st["distinct"], "wall_s": round(r["wall"], 1)}
+            for j, h in enumerate(pick):
+                scs.append(hist_to_scenario(h, f"{k}-{j}", 1))
         nbeh, nprefix = 0, 0
         for k, (c, rounds) in sims.items():
             r = jobs[k].result()
@@ -382,13 +532,14 @@ def run(prop, tier, seed):
             nprefix += npr
             rng = random.Random(seed)
             rng.shuffle(hs)
-            for j, h in enumerate(hs[:nb]):
-                scs.append(hist_to_scenario(h, f"{k}-{seed}-{j}", rounds))
+            for j, h in enumerate(hs[:nsim[k]]):
+                scs.append(hist_to_scenario(h, f"{k}-{seed}-{j}", rounds, epilogue=True))
                 nbeh += 1
         tlc_scs = len(scs)
         # (4) wide-range + directed
         nw = 160 if quick else 9000
-        wide = [gen_wide(seed, i) for i in range(nw)]
+        nv = 80 if quick else 2000
+        wide = [gen_wide(seed, i) for i in range(nw)] + [gen_veto(seed, i) for i in range(nv)]
         direct = directed_scenarios()
         scs = scs + wide + direct
         res = engine.run_harness(binp, "TestVerifE", scs, os.path.join(wd, "run"), tag="e")
@@ -414,6 +565,10 @@ def run(prop, tier, seed):
                  "leader_emerged": len([r for r in pres if r[4] and r[4]["new_leader"]]),
                  "acked_locks_probed": sum(r[4]["acked"] for r in pres if r[4] and r[4]["new_leader"]),
                  "summaries": [r[4] for r in pres if r[4]][:4]}
+        if os.environ.get("VERIF_KEEP_TRACES"):      # debugging aid: a copy of the recorded traces
+            os.makedirs(os.environ["VERIF_KEEP_TRACES"], exist_ok=True)
+            for tr in traces:
+                shutil.copy(tr, os.environ["VERIF_KEEP_TRACES"])
         # (5) monitor
         viols, divs, mst = monitor(traces, os.path.join(wd, "mon"))
         byname = {sc["name"]: sc for sc in scs}
@@ -427,6 +582,10 @@ def run(prop, tier, seed):
         script_names = {sc["name"] for sc in direct}
         skipped = [d for d in divs if d.get("name") in script_names]
         divs = [d for d in divs if d.get("name") not in script_names]
+        # histories of the DEVIATION RejectVetoes = FALSE: the code is expected NOT to follow them (it diverges where the
+        # model ignored the refusal); one that is followed to the end is a violation found by the monitor, not here
+        dev_div_names = {d.get("name") for d in divs if str(d.get("name", "")).startswith("dev_")}
+        divs = [d for d in divs if not str(d.get("name", "")).startswith("dev_")]
         if divs and os.environ.get("VERIF_STRICT_REFINE"):
             raise InfraError("refinement divergence between spec/Election.tla and the real code: " + json.dumps(divs[:3])[:2000])
         # counterexamples that the real code did not reproduce (the tree deviates from the as-coded model there)
@@ -434,13 +593,17 @@ def run(prop, tier, seed):
         for k in hunts:
             names = [n for n in byname if n.startswith(k + "-")]
             cex_repro[k] = {"replayed": len(names), "reproduced": len([n for n in names if n in bad_names])}
+        for k in devs:
+            names = [n for n in byname if n.startswith(k + "-")]
+            dev_info[k].update({"replayed": len(names), "followed_by_the_code": len([n for n in names if n in bad_names]),
+                                "not_followed": len([n for n in names if n in dev_div_names and n not in bad_names])})
         # (6) self-test
-        accepted = {sc["name"] for sc in scs} - bad_names - {d.get("name") for d in divs}
+        accepted = {sc["name"] for sc in scs} - bad_names - {d.get("name") for d in divs} - dev_div_names
         stest = selftest(traces, accepted, wd)
         new_now, _ = checklib.classify(prop, [v for v, _ in out.viols])
         if not new_now:      # a reproduced violation is a verdict whatever the self-test says; otherwise the binding must be demonstrated
-            if len(stest) < 3:
-                raise InfraError("self-test could not find suitable accepted histories to corrupt")
+            if len(stest) < 5 or not {"e", "f"} <= {x["kind"] for x in stest}:
+                raise InfraError("self-test could not find suitable accepted histories to corrupt: " + json.dumps([x["kind"] for x in stest]))
             for s in stest:
                 if not s["rejected"]:
                     raise InfraError(f"self-test failed: the monitor accepted a corrupted trace ({s['corruption']})")
@@ -462,8 +625,12 @@ def run(prop, tier, seed):
                                    "mc_rounds = candidates {1,3}, two candidacies each, every delivery order"
                                    + ("" if quick else "; mc_cfg_agree / mc_cfg_wrap = other position families incl. index wrap-around; mc_cfg2_* = two candidates over a slice of the tuples; mc_core_c0 = unequal committed numbers; "
                                                        "mc_persist_fixed_restart = proposed repair of A7 with one restart and loss"),
+                      "veto_runs": "mc_veto3 = 3 members whose election majority need not contain the newest data member (arbiter + stale + fresh; newest member of weight 0), candidate 2, any subset of messages lost; "
+                                   "mc_veto5 = 3 data members + 2 arbiters, candidate = the lagging follower, " + ("messages of the data members lost in any subset" if quick else "any subset of messages lost"),
                       "invariants": INV + ["Monotone (action property)"]},
             "counterexample_hunts": {k: dict(cex_info[k], **cex_repro[k]) for k in hunts},
+            "deviation_refuted_by_tlc": dict(dev_info, switch="RejectVetoes = FALSE (a refusal 'my log is newer' is only looked at without a majority of accepts); invariants NewestWins, RefusalHonoured"),
+            "veto_histories": len([x for x in wide if x["name"].startswith("veto-")]),
             "tlc_behaviours_replayed": nbeh, "tlc_behaviour_prefixes_printed": nprefix, "tlc_counterexamples_replayed": tlc_scs - nbeh,
             "wide_range_histories": len(wide), "directed_histories": len(direct), "engine_p": pinfo,
             "monitor": dict(mst, module="spec/mon/MonElection.tla"),
